@@ -36,7 +36,7 @@ class Profile:
 
     def to_json(self):
         return {"seed": self.seed, "timecode": self.timecode, "sizes": self.sizes, "type_map": self.type_map,
-                "die_mode": self.die_mode, "fin_partial": self.fin_partial, "chunk": self.chunk, "space": self.space, "log_level": self.log_level}
+                "die_mode": self.die_mode, "fin_partial": self.fin_partial, "chunk": self.chunk, "space": self.space, "log_level": self.log_level, "timing": self.timing}
 
 
 def concretise(f: Dict[str, Any], prof: Profile) -> Dict[str, Any]:
